@@ -328,13 +328,13 @@ func generate(o *hx.Opts) []*podIn {
 	}
 
 	// ---- rand
-	nr := o.N(2500, 60000)
+	nr := o.N(12000, 200000)
 	for i := 0; i < nr; i++ {
 		out = append(out, g.randomPod("rand", false))
 	}
 
 	// ---- excl: outside the guard
-	ne := o.N(150, 3000)
+	ne := o.N(600, 8000)
 	for i := 0; i < ne; i++ {
 		out = append(out, g.randomPod("excl", true))
 	}
